@@ -40,3 +40,17 @@ Print Assumptions C18_is_match_iff_find. Print Assumptions C18_literal_is_match_
 Example C18_example : re_find 1 (RSeq (RChar 97) (RStar (RGroup 1 (RAlt (RChar 98) (RChar 99))))) [120;97;98;99;97;100]%N = [[97;98;99]%N; [97]%N] /\
   re_capture 1 (RSeq (RChar 97) (RStar (RGroup 1 (RAlt (RChar 98) (RChar 99))))) [120;97;98;99;97;100]%N = [[97;98;99]%N; [99]%N].
 Proof. vm_compute. auto. Qed.
+
+(* group references in the replacement text ($N, ${N}, $name, ${name}, $$ - Captures::expand of the regex crates): re_replace_x expands them match by match, over the same matches
+   (the capture-keeping iteration finds exactly the spans of the plain one); a replacement text without `$` is used as it is, so there re_replace_x IS re_replace and everything above applies *)
+Require Import RegexExpand RegexExpandFacts.
+Theorem C18_expanding_replace_same_matches : forall k r s, map span_of (spans_c k r s) = spans k r s.
+Proof. exact spans_c_spans. Qed.
+Theorem C18_plain_replacement_is_not_expanded : forall k r s t limit, no_dollar t = true -> re_replace_x k r s t limit = re_replace k r s t limit.
+Proof. exact replace_x_plain. Qed.
+Theorem C18_reference_forms : forall get, expand 3 [36; 36]%N get = [36]%N /\ expand 3 [36; 48]%N get = get 0%nat /\ expand 5 [36; 123; 49; 125]%N get = get 1%nat /\
+  expand 2 [36]%N get = [36]%N /\ expand 4 [36; 120; 49]%N get = [] /\ expand 4 [36; 49; 120]%N get = [] /\ expand 4 [36; 123; 49]%N get = [36; 123; 49]%N.
+Proof. exact expand_forms. Qed.
+Example C18_expand_example : re_replace_x 1 (RSeq (RGroup 1 (RChar 97)) (RGroup 2 (RChar 98))) [120;97;98;121]%N [36;50;36;49;36;36;36;123;48;125]%N 0 = [120;98;97;36;97;98;121]%N.
+Proof. vm_compute. reflexivity. Qed.
+Print Assumptions C18_plain_replacement_is_not_expanded.
